@@ -231,7 +231,7 @@ var Check = &sqrun.Check{ID: "C20", QuickBudget: 60, ThoroughBudget: 600,
 		var list []Case
 		limits := []int{8, 16, 33, 64}
 		if c.Thorough {
-			limits = append(limits, 100, 257)
+			limits = append(limits, 9, 31, 32, 100, 257, 1000, 4095, 4096, 4097)
 		}
 		modes := []string{"read", "conn-nil", "conn-buf"}
 		add := func(g GenP, limit int, chunks []int) {
